@@ -49,6 +49,10 @@ bool MatrixMul::is_canonical(const RCP<const Basic> &scalar,
     if (factors.size() == 0 || (factors.size() == 1 && eq(*scalar, *one))) {
         return false;
     }
+    if (factors.size() == 1 && is_a<IdentityMatrix>(*factors[0])) {
+        // scalar * I is the only product that keeps an identity matrix
+        return true;
+    }
     size_t num_diag = 0;
     size_t num_dense = 0;
     for (auto factor : factors) {
@@ -246,11 +250,12 @@ RCP<const MatrixExpr> matrix_mul(const vec_basic &factors)
     } else if (!dense.is_null()) {
         keep.push_back(dense);
     }
+    if (keep.size() == 0 && !ident.is_null()) {
+        // only identity matrices: the product is scalar * I
+        keep.push_back(ident);
+    }
     if (keep.size() == 1 && eq(*scalar, *one)) {
         return rcp_static_cast<const MatrixExpr>(keep[0]);
-    }
-    if (keep.size() == 0 && !ident.is_null()) {
-        return ident;
     }
     return make_rcp<const MatrixMul>(scalar, keep);
 }
